@@ -12,6 +12,7 @@ CONTRACT_MODULES = [
     'contracts.cmdline',
     'contracts.logger',
     'contracts.schema',
+    'contracts.schemaless',
 ]
 
 CFG = 'cfgparser.ZConfigParser.'
@@ -70,7 +71,7 @@ PROPS = {
     'C04': {'functions': ['substitution._split', 'substitution.substitute', 'substitution.isname'],
             'rx': ['rx:substitution._name_re'], 'standin': True},
     'C05': {'functions': [CFG + '__init__', CFG + 'handle_define', CFG + 'replace', CFG + 'handle_include',
-                          CFG + 'handle_directive', 'substitution.substitute', 'loader.ConfigLoader.loadResource',
+                          CFG + 'handle_directive', 'substitution.substitute', 'substitution._split', 'loader.ConfigLoader.loadResource',
                           'loader.ConfigLoader._parse_resource', 'loader.ConfigLoader.includeConfiguration'],
             'rx': ['rx:substitution._name_re'], 'standin': True},
     'C06': {'functions': [CFG + '__init__', CFG + 'parse', CFG + 'handle_include', CFG + 'end_section',
@@ -82,7 +83,7 @@ PROPS = {
             'standin': True},
     'C08': {'functions': [CFG + n for n in ('error', 'replace', 'handle_key_value', 'handle_define',
                                             'start_section', 'end_section', 'nextline')]
-            + ['info.ValueInfo.__init__', 'info.ValueInfo.convert'], 'standin': True},
+            + ['info.ValueInfo.__init__', 'info.ValueInfo.convert', 'matcher.BaseMatcher.addValue'], 'standin': True},
     'C09': {
         'functions': ['datatypes.RegularExpressionConversion.__call__', 'datatypes.BasicKeyConversion.__call__',
                       'datatypes.asBoolean', 'datatypes.integer', 'datatypes.RangeCheckedConversion.__call__',
@@ -114,7 +115,9 @@ PROPS = {
                           'matcher.SectionMatcher.__init__', 'matcher.BaseMatcher.createChildMatcher',
                           'matcher.SchemaMatcher.__init__', 'matcher.SchemaMatcher.finish', 'loader.ConfigLoader.loadResource'],
             'bind': ['bind:handlers'], 'standin': True},
-    'C17': {'functions': [], 'standin': True},
+    'C17': {'functions': [CFG + 'start_section', CFG + 'end_section', CFG + 'handle_key_value', 'schemaless.Section.addValue', 'schemaless.Section.__init__',
+                          'schemaless.Context.startSection', 'schemaless.Context.endSection',
+                          'schemaless.Context.includeConfiguration', 'schemaless.Parser.handle_define'], 'standin': True},
     'C18': {'functions': ['schema.SchemaParser.extendSchema', SP + 'loadComponent', 'url.urlnormalize', 'url.urldefrag', 'url.urljoin', 'loader.BaseLoader.isPath', 'loader.BaseLoader.normalizeURL', 'loader._url_from_file',
                           'loader.BaseLoader._raise_open_error', CFG + '__init__', CFG + 'handle_include'],
             'rx': ['rx:loader._pathsep_rx'], 'standin': True},
@@ -129,7 +132,11 @@ PROPS = {
     'C20': {'functions': ['components.logger.datatypes.logging_level', 'components.logger.factory.Factory.__init__',
                           'components.logger.factory.Factory.__call__',
                           'components.logger.handlers.HandlerFactory.__init__',
-                          'components.logger.handlers.FileHandlerFactory.__init__'], 'standin': True},
+                          'components.logger.handlers.FileHandlerFactory.__init__',
+                          'components.logger.loghandler._remove_from_reopenable', 'components.logger.loghandler.reopenFiles',
+                          'components.logger.loghandler.closeFiles', 'components.logger.logger.LoggerFactoryBase.__init__',
+                          'components.logger.logger.LoggerFactoryBase.create', 'components.logger.logger.LoggerFactory.__init__',
+                          'components.logger.logger.LoggerFactory.create'], 'standin': True},
 }
 
 
